@@ -975,6 +975,9 @@ class Loops:
         that held when it was pushed (loop-local symbols renamed apart)"""
         I = self.I
         out = []
+        if any(how in ("remove", "clear") for pc, v, exist, how in st.colls.get(c.seq, ())):
+            from .interp import Unmodelled
+            raise Unmodelled("elements of a collection after remove()/clear()")
         for pc, v, exist, how in st.colls.get(c.seq, ()):
             m = {}
             for a in exist:
